@@ -433,9 +433,10 @@ func genCase(r *rand.Rand, allowHuge bool) *Case {
 		}
 		c.Content = mon.Q(genText(r, c.Codec))
 		if allowHuge && r.Intn(400) == 0 {
+			// 64 KiB cut into 4096 pieces, or 1 MiB in one piece
 			c.Content, c.Rep = "0123456789abcde,", (64<<10)/16
 			if r.Intn(4) == 0 {
-				c.Rep = (1 << 20) / 16
+				c.Content, c.Rep = "0123456789abcdef", (1<<20)/16
 			}
 		}
 		c.Num = pick(r, numPool)
